@@ -221,6 +221,13 @@ impl Api {
         }
         r
     }
+    pub fn setup_sk(&self, setup: &Blob) -> R<Vec<u8>> {
+        let r = monitored("setup_sk", || self.s.setup_sk(setup));
+        if self.rec_on() {
+            self.record("setup_sk", None, vec![Arg::Blob(setup.clone())], r.clone().map(|v| hx(&[&v])), vec![]);
+        }
+        r
+    }
     pub fn reg_start(&self, t: &mut Tape, pw: &[u8]) -> R<(Vec<u8>, Vec<u8>)> {
         let ts = t.spec();
         let r = monitored("reg_start", || self.s.reg_start(t, pw));
@@ -535,6 +542,7 @@ pub fn reexec(c: &CallRec) -> (Result<Vec<String>, E>, Vec<String>) {
         "setup" => h1(api.setup(&mut t)),
         "setup_with_key" => h1(api.setup_with_key(&mut t, &a_b(&a[0]))),
         "setup_pk" => h1(api.setup_pk(&a_blob(&a[0]))),
+        "setup_sk" => h1(api.setup_sk(&a_blob(&a[0]))),
         "reg_start" => h2(api.reg_start(&mut t, &a_b(&a[0]))),
         "sreg_start" => h1(api.sreg_start(&a_blob(&a[0]), &a_blob(&a[1]), &a_b(&a[2]))),
         "reg_finish" => api
